@@ -3,7 +3,7 @@
    invariant of the match text; the reference locations are folds of [advance]. *)
 From LexVerif Require Import Base CharClass RangeMap Regex Spec SpecExec LexSpec Nfa Dfa NfaToDfa NfaSem Codegen
      Runtime ScanIface RulesetSem Driver SpecDef ClassAlgProofs RuntimeProofs RuntimeLemmas ScanOkProofs
-     RulesetSemProofs LexSpecProofs LexSpecFacts EndToEnd EndToEndModel Instance Harness.
+     RulesetSemProofs LexSpecProofs LexSpecFacts SpecInvariants EndToEnd EndToEndModel Instance Harness.
 From LexVerif.Gen Require Import GenTables GenConsts.
 
 Theorem c06_byte_index : forall (width : N -> N) (tab_width : N) (p : list N) (l : Loc),
@@ -41,6 +41,45 @@ Theorem c06_token_span : forall (benv : builtin_env) (width : N -> N) (tab_width
     s_rest U s' = skipn k (s_rest U s) /\ s_mstart U s' = pos' /\ s_pos U s' = pos' /\
     s_rs U s' = (match a_switch o with Some n => n | None => s_rs U s end).
 Proof. exact spec_token. Qed.
+
+(* every location of every item of the reference stream is the location obtained by scanning the
+   input from its beginning up to that point (a prefix of the input), start <= end *)
+Theorem c06_item_locations : forall (benv : builtin_env) (width : N -> N) (tab_width : N) (T E U : Type)
+    (rss : list (list crule)) (actions : nat -> action T E U) (whole : list N) (n : nat) (s : sstate U)
+    (r : list (option (item T E))),
+  loc_inv width tab_width U whole s ->
+  spec_run benv width tab_width T E U rss actions n s r ->
+  forall i : item T E, In (Some i) r -> item_loc_ok width tab_width T E whole i.
+Proof. exact spec_run_item_locs. Qed.
+
+Theorem c06_initial_state_ok : forall (width : N -> N) (tab_width : N) (U : Type) (whole : list N) (u : U),
+  loc_inv width tab_width U whole (s_init U whole u).
+Proof. exact loc_inv_init. Qed.
+
+(* successive items never overlap and appear in input order *)
+Theorem c06_items_ordered : forall (benv : builtin_env) (width : N -> N) (tab_width : N) (T E U : Type)
+    (rss : list (list crule)) (actions : nat -> action T E U) (whole : list N) (n : nat) (s : sstate U)
+    (r : list (option (item T E))),
+  loc_inv width tab_width U whole s ->
+  spec_run benv width tab_width T E U rss actions n s r ->
+  ordered_from T E (byte_idx (s_mstart U s)) r.
+Proof. exact spec_run_ordered. Qed.
+
+(* what the action of a token saw: match_loc() = two prefix locations, match_() = the input slice between
+   them, peek() = the next character; the token's end is the view's end, its start the view's start
+   (or the end after reset_match) *)
+Theorem c06_token_view : forall (benv : builtin_env) (width : N -> N) (tab_width : N) (T E U : Type)
+    (rss : list (list crule)) (actions : nat -> action T E U) (whole : list N) (s : sstate U)
+    (st : Loc) (t : T) (en : Loc) (s' : sstate U),
+  loc_inv width tab_width U whole s ->
+  spec_step benv width tab_width T E U rss actions s = SItem T E U (ITok st t en) s' ->
+  exists (r : crule) (k : nat) (e : bool) (v : view),
+    select benv (nth (s_rs U s) rss []) (s_rest U s) = Some (r, (k, e)) /\
+    SpecInvariants.view_ok width tab_width whole v /\
+    a_res (actions (cr_act r) v (s_user U s)) = AReturn (inl t) /\
+    en = v_end v /\
+    st = (if a_reset (actions (cr_act r) v (s_user U s)) then v_end v else v_start v).
+Proof. exact token_view. Qed.
 
 (* ------------------------------------------------------------------------------------------
    The run-time theorem (L7): for any program satisfying the scanner facts [scan_ok] (proved for
@@ -121,6 +160,10 @@ Print Assumptions c06_newline.
 Print Assumptions c06_tab.
 Print Assumptions c06_other.
 Print Assumptions c06_token_span.
+Print Assumptions c06_item_locations.
+Print Assumptions c06_initial_state_ok.
+Print Assumptions c06_items_ordered.
+Print Assumptions c06_token_view.
 Print Assumptions c06_next_simulates.
 Print Assumptions c06_stream.
 Print Assumptions c06_compiled_scan_ok.
